@@ -272,7 +272,8 @@ int read_macho(
             return -1;
           }
 
-          if (strcmp(macho_section.section_name, "__text") == 0)
+          if (strcmp(macho_section.section_name, "__text") == 0 &&
+              macho_section.size != 0)
           {
             if (macho_section.offset > file_length ||
                 macho_section.size > file_length - macho_section.offset)
